@@ -105,7 +105,7 @@ func (c16) Cases(tier string, seed uint64) []fw.Case {
 			o.noCancel = false
 			o.failAt = 1 + r.Intn(o.n-1)
 		}
-		if !exprOpen && r.Chance(1, 20) {
+		if !exprOpen && r.Chance(1, 3) {
 			o.variant.Leaky = true
 		}
 		pl, ff := genHistory(r, o)
